@@ -1365,9 +1365,10 @@ def parse_assignment_indices(indices, shape):
 
             start, stop, step = index.indices(size)
 
-            # Note: We now have stop >= start and step >= 0
+            # Note: We now have step >= 0 (and stop < start only for an
+            # empty selection)
 
-            div, mod = divmod(stop - start, step)
+            div, mod = divmod(max(stop - start, 0), step)
             if not div and not mod:
                 # stop equals start => zero-sized slice for this
                 # dimension
@@ -1772,6 +1773,14 @@ def setitem_array(out_name, array, indices, value):
     #
     # Note that array_common_shape and value_common_shape may be
     # different if there are any size 1 dimensions being broadcast.
+    # ``reverse`` holds positions of array dimensions; an integer index drops
+    # its dimension from the assignment value, so translate them to positions
+    # of ``implied_shape``
+    non_integer = [
+        j for j, index in enumerate(indices) if not isinstance(index, Integral)
+    ]
+    reverse = [non_integer.index(i) for i in reverse]
+
     offset = len(implied_shape) - value_ndim
     if offset >= 0:
         # The array has the same number or more dimensions than the
